@@ -500,6 +500,14 @@ enum HOp {
     Variable,
     Line,
     NoLine,
+    /// switch on the module-scope 64-bit constant with two 64-bit case literals
+    Switch64,
+    /// id(): reserve an id now ...
+    ReserveId,
+    /// ... and give it later to an OpUndef of the 64-bit type inside the open block
+    UndefReserved,
+    /// switch on that late-defined, low-numbered value
+    SwitchReserved,
     BeginFunction,
     Parameter,
     BeginBlock,
@@ -510,14 +518,26 @@ enum HOp {
     SetVersion,
 }
 
-const HOPS: [HOp; 23] = [
+const HOPS: [HOp; 27] = [
     HOp::Capability, HOp::ExtInstImport, HOp::MemoryModel, HOp::EntryPoint, HOp::ExecutionMode, HOp::DebugString, HOp::Name, HOp::ModuleProcessed,
-    HOp::Decorate, HOp::TypeVoid, HOp::TypeInt64, HOp::Constant64, HOp::Variable, HOp::Line, HOp::NoLine, HOp::BeginFunction, HOp::Parameter, HOp::BeginBlock,
+    HOp::Decorate, HOp::TypeVoid, HOp::TypeInt64, HOp::Constant64, HOp::Variable, HOp::Line, HOp::NoLine, HOp::Switch64, HOp::ReserveId, HOp::UndefReserved, HOp::SwitchReserved, HOp::BeginFunction, HOp::Parameter, HOp::BeginBlock,
     HOp::IAdd, HOp::Ret, HOp::Kill, HOp::EndFunction, HOp::SetVersion,
 ];
 
 /// applies one call; false = the call failed (state unchanged) or is not enabled
-fn apply(b: &mut Builder, o: HOp, t64: &mut Option<u32>) -> bool {
+#[derive(Default)]
+struct HState {
+    /// id of the declared 64-bit int type
+    t64: Option<u32>,
+    /// id of the most recent 64-bit module-scope constant
+    c64: Option<u32>,
+    /// an id reserved with id() early and given to a 64-bit OpUndef later (a value whose id is smaller than ids defined before it)
+    reserved: Option<u32>,
+    late: Option<u32>,
+}
+
+fn apply(b: &mut Builder, o: HOp, st: &mut HState) -> bool {
+    let t64 = &mut st.t64;
     match o {
         HOp::Capability => b.capability(spirv::Capability::Shader),
         HOp::ExtInstImport => {
@@ -545,7 +565,7 @@ fn apply(b: &mut Builder, o: HOp, t64: &mut Option<u32>) -> bool {
         }
         HOp::Constant64 => match *t64 {
             Some(t) => {
-                b.constant_bit64(t, 0xFFFF_FFFF_0000_0001);
+                st.c64 = Some(b.constant_bit64(t, 0xFFFF_FFFF_0000_0001));
             }
             None => return false,
         },
@@ -558,6 +578,27 @@ fn apply(b: &mut Builder, o: HOp, t64: &mut Option<u32>) -> bool {
             b.line(3, 1, 2)
         }
         HOp::NoLine => b.no_line(),
+        HOp::Switch64 => match st.c64 {
+            Some(c) => return b.switch(c, 60, vec![(dr::Operand::LiteralBit64(0x8000_0000_0000_0001), 61), (dr::Operand::LiteralBit64(2), 62)]).is_ok(),
+            None => return false,
+        },
+        HOp::ReserveId => {
+            if st.reserved.is_some() {
+                return false;
+            }
+            st.reserved = Some(b.id());
+        }
+        HOp::UndefReserved => match (st.reserved, st.t64, st.late) {
+            (Some(r), Some(t), None) if b.selected_block().is_some() => {
+                b.undef(t, Some(r));
+                st.late = Some(r);
+            }
+            _ => return false,
+        },
+        HOp::SwitchReserved => match st.late {
+            Some(r) => return b.switch(r, 60, vec![(dr::Operand::LiteralBit64(0x8000_0000_0000_0003), 61), (dr::Operand::LiteralBit64(4), 62)]).is_ok(),
+            None => return false,
+        },
         HOp::SetVersion => {
             if b.version() == Some((1, 4)) {
                 return false; // idempotent: not a new state
@@ -589,7 +630,7 @@ fn apply(b: &mut Builder, o: HOp, t64: &mut Option<u32>) -> bool {
 
 fn build(h: &[HOp]) -> Option<Builder> {
     let mut b = Builder::new();
-    let mut t64 = None;
+    let mut t64 = HState::default();
     for o in h {
         if !apply(&mut b, *o, &mut t64) {
             return None;
@@ -642,9 +683,14 @@ fn check_history(h: &[HOp]) -> (Option<Viol>, bool, Option<u64>) {
 }
 
 fn histories(depth: usize, run: &mut Run) -> (u64, u64, u64) {
+    histories_from(&[], depth, run)
+}
+
+/// the same closure started from a prebuilt history (a non-initial state)
+fn histories_from(root: &[HOp], depth: usize, run: &mut Run) -> (u64, u64, u64) {
     // BFS closure on the full builder state; complete states go through assemble -> load
     let mut seen: HashSet<u64> = HashSet::new();
-    let mut frontier: Vec<Vec<HOp>> = vec![vec![]];
+    let mut frontier: Vec<Vec<HOp>> = vec![root.to_vec()];
     let mut states = 0u64;
     let mut trans = 0u64;
     let mut complete = 0u64;
@@ -916,7 +962,19 @@ fn main() {
     for (k, n) in oc {
         run.outcome(k, n);
     }
-    let (states, trans, complete) = histories(tier.pick(6, 8), &mut run);
+    let (mut states, mut trans, mut complete) = histories(tier.pick(6, 8), &mut run);
+    // non-initial states: a module that already has a 64-bit type, a 64-bit constant and one complete function (and a
+    // reserved id); every continuation of depth 5 / 6
+    for root in [
+        vec![HOp::TypeInt64, HOp::Constant64, HOp::BeginFunction, HOp::BeginBlock, HOp::Ret, HOp::EndFunction],
+        vec![HOp::TypeInt64, HOp::ReserveId, HOp::Constant64, HOp::BeginFunction, HOp::BeginBlock, HOp::IAdd, HOp::IAdd],
+        vec![HOp::TypeInt64, HOp::Constant64, HOp::BeginFunction, HOp::BeginBlock, HOp::Ret, HOp::EndFunction, HOp::BeginFunction, HOp::BeginBlock],
+    ] {
+        let (s2, t2, c2) = histories_from(&root, tier.pick(5, 6), &mut run);
+        states += s2;
+        trans += t2;
+        complete += c2;
+    }
     run.outcome("history_states", states);
     run.outcome("complete_histories_roundtripped", complete);
     run.set("evaluations", json!(work.len() as u64 + trans));
